@@ -31,7 +31,7 @@ type APart struct {
 	Ord  int    `json:"ord"`
 	Fail bool   `json:"fail"`
 	Doc  string `json:"doc"` // loaders: YAML document
-	Zero bool   `json:"zero"` // runners: realised by a FIELD-LESS type (all zero-size objects share one address)
+	Zero bool   `json:"zero"` // runners, closers: realised by a FIELD-LESS type (all zero-size objects share one address)
 }
 type AScenario struct {
 	ID         string  `json:"id"`
@@ -108,6 +108,11 @@ type ldP struct{ ldO }
 
 func (x *ldP) Priority() {}
 
+// class "mark": carries the Priority marker but has no Order() - not priority-ORDERED, the contract treats it as unordered
+type ldM struct{ ldU }
+
+func (x *ldM) Priority() {}
+
 // ---- user post-processors
 type ppU struct {
 	l    *alog
@@ -161,6 +166,10 @@ type ppP struct{ ppO }
 
 func (x *ppP) Priority() {}
 
+type ppM struct{ ppU }
+
+func (x *ppM) Priority() {}
+
 // ---- runners
 type rnU struct {
 	l    *alog
@@ -185,6 +194,10 @@ func (x *rnO) Order() int { return realOrd(x.p.Ord) }
 type rnP struct{ rnO }
 
 func (x *rnP) Priority() {}
+
+type rnM struct{ rnU }
+
+func (x *rnM) Priority() {}
 
 // ---- runners of field-less types: one per ordering class, their scenario data lives in package variables (the harness runs
 // one scenario at a time).  Go gives every zero-size allocation the same address: identity by address must not be used.
@@ -235,6 +248,21 @@ func (x *closerC) Close() error {
 	return nil
 }
 
+// ---- closers of field-less types (three distinct zero-size types: all of their instances share one address); their scenario
+// data lives in package variables like the runners'
+var zcl [3]*closerC
+
+type clZA struct{}
+type clZB struct{}
+type clZC struct{}
+
+func (*clZA) Naming() string { return zcl[0].name }
+func (*clZA) Close() error   { return zcl[0].Close() }
+func (*clZB) Naming() string { return zcl[1].name }
+func (*clZB) Close() error   { return zcl[1].Close() }
+func (*clZC) Naming() string { return zcl[2].name }
+func (*clZC) Close() error   { return zcl[2].Close() }
+
 // ---- the cycle opener (not one of the K components: its name sorts before k001 and carries index 0) and the first
 // component when it closes the cycle
 type openerC struct {
@@ -277,6 +305,8 @@ func runAppScenario(sc *AScenario) []map[string]any {
 			loaders = append(loaders, &ldP{ldO{b}})
 		case "ord":
 			loaders = append(loaders, &ldO{b})
+		case "mark":
+			loaders = append(loaders, &ldM{b})
 		default:
 			x := b
 			loaders = append(loaders, &x)
@@ -289,6 +319,8 @@ func runAppScenario(sc *AScenario) []map[string]any {
 			comps = append(comps, &ppP{ppO{b}})
 		case "ord":
 			comps = append(comps, &ppO{b})
+		case "mark":
+			comps = append(comps, &ppM{b})
 		default:
 			x := b
 			comps = append(comps, &x)
@@ -298,7 +330,7 @@ func runAppScenario(sc *AScenario) []map[string]any {
 	usedZ := [3]bool{}
 	for i, p := range sc.Runners {
 		b := rnU{l, i + 1, p, fmt.Sprintf("r%03d", i+1)}
-		if k := map[string]int{"un": 0, "ord": 1, "prio": 2}[p.Cls]; p.Zero && !usedZ[k] {
+		if k := map[string]int{"un": 0, "ord": 1, "prio": 2}[p.Cls]; p.Zero && p.Cls != "mark" && !usedZ[k] {
 			usedZ[k], zpart[k], zidx[k] = true, p, i+1
 			comps = append(comps, []any{&rnZU{}, &rnZO{}, &rnZP{}}[k])
 			continue
@@ -308,14 +340,23 @@ func runAppScenario(sc *AScenario) []map[string]any {
 			comps = append(comps, &rnP{rnO{b}})
 		case "ord":
 			comps = append(comps, &rnO{b})
+		case "mark":
+			comps = append(comps, &rnM{b})
 		default:
 			x := b
 			comps = append(comps, &x)
 		}
 	}
 	closers := make([]*closerC, len(sc.Closers))
+	nz := 0
 	for j, p := range sc.Closers {
 		closers[j] = &closerC{l, j + 1, p, fmt.Sprintf("c%03d", j+1), make(chan struct{})}
+		if p.Zero && nz < 3 {
+			zcl[nz] = closers[j]
+			comps = append(comps, []any{&clZA{}, &clZB{}, &clZC{}}[nz])
+			nz++
+			continue
+		}
 		comps = append(comps, closers[j])
 	}
 	for c := 1; c <= sc.Comps; c++ {
@@ -471,6 +512,10 @@ type spP struct{ spO }
 func (x *spO) Order() int { return x.ord }
 func (x *spP) Priority()  {}
 
+type spM struct{ spU }
+
+func (x *spM) Priority() {}
+
 type idxer interface{ idx() int }
 
 func (x *spU) idx() int { return x.i }
@@ -504,6 +549,8 @@ func cmdSort(in, out string) error {
 				items[i] = &spP{spO{spU{i + 1}, realOrd(p.Ord)}}
 			case "ord":
 				items[i] = &spO{spU{i + 1}, realOrd(p.Ord)}
+			case "mark":
+				items[i] = &spM{spU{i + 1}}
 			default:
 				items[i] = &spU{i + 1}
 			}
